@@ -61,6 +61,8 @@ class Mon:
         self.gaveup = []      # (sender address, t, text)
         self.teardown = {}    # sender address -> virtual time its endpoint began teardown
         self.raised = []      # listener-level ValueErrors (malformed)
+        self.tx_times = {}    # (sender address, idx) -> times a data frame of that message was put on the wire
+        self.acked_at = {}    # (sender address, idx) -> time its sender processed the acknowledgement
         self._undo = []
 
     def v(self, cls, detail, **sig):
@@ -104,6 +106,20 @@ class Mon:
                 K.probe("retransmission")
             return r
         self.patch(comms.ReliableSender, "maybe_retry", rretry)
+        orig_ack = comms.ReliableSender.ack
+
+        def rack(self_, idx):
+            mon.acked_at.setdefault((fakes.Net.norm(self_.address), idx), K.now)
+            return orig_ack(self_, idx)
+        self.patch(comms.ReliableSender, "ack", rack)
+        orig_net_send = K.net.send
+
+        def net_send(link, addr, frames):
+            k = wire.fault_key(frames, addr)
+            if k is not None and len(frames) > 1:       # a Syn-prefixed data frame (not an ack)
+                mon.tx_times.setdefault(k, []).append(K.now)
+            return orig_net_send(link, addr, frames)
+        K.net.send = net_send
         orig_one = comms.Listener._recv_one
 
         def one(self_, timeout_ms):
@@ -232,6 +248,13 @@ def _run_traffic(plan, ch, want_log):
         mon.teardown.setdefault(fakes.Net.norm(self_.mlistener.address), K.now)
         return orig_term(self_)
     mon.patch(ex.Executor, "terminate", term)
+    import cascade.executor.bridge as bridge_mod
+    orig_bs = bridge_mod.Bridge.shutdown
+
+    def bs(self_):
+        mon.teardown.setdefault(fakes.Net.norm(CTRL), K.now)     # also when recv_events shuts down by itself before raising
+        return orig_bs(self_)
+    mon.patch(bridge_mod.Bridge, "shutdown", bs)
     job = JobInstance(tasks={}, edges=[])
     n, wph = plan["n"], plan["wph"]
 
@@ -390,6 +413,22 @@ def _judge_traffic(plan, K, mon, result, pstate, end, want_log):
                 viol.append(("C06", "give_up_not_bounded", dict(after_s=(t_give - t_first) / 1e9), dict(partition=True)))
             else:
                 K.probe("bounded_give_up_observed")
+    # timely retransmission: while a message is unacknowledged and its sender's loop is running, the next transmission follows
+    # within a few resend periods - however much other traffic the endpoint is busy receiving
+    bound = 5 * 800 * 10**6 + 2 * net["lat_hi"]
+    for key, times in mon.tx_times.items():
+        s = mon.sent.get(key)
+        if s is None or s["teardown"]:
+            continue
+        td = mon.teardown.get(key[0])
+        gave_t = min((t for a, t, _ in mon.gaveup if a == key[0]), default=None)
+        end_t = min(x for x in (mon.acked_at.get(key), td, gave_t, K.now) if x is not None)
+        pts = [t for t in times if t <= end_t] + [end_t]
+        gap = max((b - a for a, b in zip(pts, pts[1:])), default=0)
+        if gap > bound:
+            viol.append(("C06", "retransmission_overdue", dict(key=key, msg=type(s["msg"]).__name__, gap_s=gap / 1e9, transmissions=len(times)),
+                         dict(lossy=lossy, partition=bool(part))))
+            break
     for name, err, tb in K.crashes:
         K.probe("process_crash")
     stats = dict(sent_msgs=len(mon.sent), delivered=sum(mon.delivered.values()), suppressed=mon.suppressed, frames=K.net.stats["sent"],
